@@ -214,6 +214,29 @@ theorem late_reply_ignored (evs : List Ev) (k m i : Nat) (race win : Bool)
   · rfl
   · simp [hl, hctx]
 
+/-- why `sync.Once` alone would not give 3: by-value copies do not share it.  Two copies of one
+request object and `replyResult` on each close the channel twice (`Obj` is the request object with
+arbitrarily many copies; its semantics is checked against real Go by the `obj` cases) … -/
+theorem copies_do_not_share_once :
+    ([OEv.copy 0, .fire 0 (.msg 5) false, .fire 1 (.msg 6) false].foldl ostep {}).closes = 2 := by decide
+
+/-- … whereas one copy fires at most once, and a copy taken after the Once fired is inert -/
+theorem one_copy_fires_once (o : Obj) (a : Nat) (v w : Res) (b c : Bool) :
+    (ostep (ostep o (.fire a v b)) (.fire a w c)).closes = (ostep o (.fire a v b)).closes := by
+  simp only [ostep]
+  by_cases h2 : o.closes ≥ 2
+  · simp [h2]
+  · simp only [h2, if_false]
+    cases ha : o.onces[a]? with
+    | none => simp [h2, ha]
+    | some x =>
+      cases x
+      · have hlt : a < o.onces.length := by
+          rcases List.getElem?_eq_some_iff.mp ha with ⟨h, _⟩; exact h
+        simp only
+        split <;> (split <;> simp [List.getElem?_set, hlt])
+      · simp [h2, ha]
+
 /-! ### 5. a silent peer does not wedge requests to other peers (`callHandler`) -/
 
 /-- the full statement, parameterised by whether the handshake read is bounded -/
